@@ -1,6 +1,6 @@
 (* C15 -- property theorems only.  Proofs live in C15/Proofs*.v. *)
 From Coq Require Import NArith List.
-From DV Require Import Base.Outcome C15.Gen C15.Model C15.Proofs C15.ProofsSeq C15.ProofsNet C15.ProofsDemux.
+From DV Require Import Base.Outcome C15.Gen C15.Model C15.Proofs C15.ProofsSeq C15.ProofsNet C15.ProofsDemux C15.ProofsXfr.
 Import ListNotations.
 Local Open Scope N_scope.
 
@@ -149,3 +149,42 @@ Print Assumptions C15_response_timeout_respected.
 Theorem C15_junk_keeps_deadline : junk_keeps_deadline.
 Proof. exact junk_keeps_deadline_now. Qed.
 Print Assumptions C15_junk_keeps_deadline.
+
+(* ---- multi-response (XFR) streams ---- *)
+Theorem C15_is_answer_multi_sound : forall axfr r a,
+  is_answer_multi axfr r a = true -> answers_multi axfr r a.
+Proof. exact is_answer_multi_sound. Qed.
+Print Assumptions C15_is_answer_multi_sound.
+
+Theorem C15_xfr_first_response_sound : forall e a eof x,
+  e_xfr e = XAxfrInit \/ e_xfr e = XIxfrInit ->
+  check_stream_m e a = (eof, x, true) ->
+  answers_multi (e_axfr e) (mkReq (m_id a) (e_qs e)) a.
+Proof. exact cs_first_response_sound. Qed.
+Print Assumptions C15_xfr_first_response_sound.
+
+Theorem C15_xfr_error_sticky : forall e a,
+  e_xfr e = XError \/ e_xfr e = XDone -> check_stream_m e a = (false, XError, false).
+Proof. exact cs_error_sticky. Qed.
+Print Assumptions C15_xfr_error_sticky.
+
+Theorem C15_axfr_single_message_complete : forall e a s others,
+  e_xfr e = XAxfrInit -> m_rcode a = 0 ->
+  is_answer_multi (e_axfr e) (mkReq (m_id a) (e_qs e)) a = true ->
+  Forall (fun o => o = Some ROther) others ->
+  m_ans a = Some (Some (RSoa s) :: others ++ [Some (RSoa s)]) ->
+  check_stream_m e a = (true, XDone, true).
+Proof. exact axfr_single_message_complete. Qed.
+Print Assumptions C15_axfr_single_message_complete.
+
+Theorem C15_multi_element_once : forall cs idle s m s' e,
+  q_inv (st_q s) -> st_conn s = COpen ->
+  q_get (st_q s) (m_id m) = Some e -> e_multi e = true ->
+  s_step cs idle s (EReply m) = Ok s' ->
+  (forall c, elems c (st_log s') = elems c (st_log s) + (if e_caller e =? c then 1 else 0)) /\
+  (fst (fst (cs e m)) = false ->
+     exists e', q_get (st_q s') (m_id m) = Some e' /\ e_caller e' = e_caller e /\ e_qs e' = e_qs e /\
+                e_xfr e' = snd (fst (cs e m))) /\
+  (fst (fst (cs e m)) = true -> q_get (st_q s') (m_id m) = None).
+Proof. exact multi_element_once. Qed.
+Print Assumptions C15_multi_element_once.
